@@ -99,7 +99,14 @@ def enum_cases(tier, seed):
 
 @st.composite
 def ph_seq(draw, max_len):
-    cls = draw(st.sampled_from(["basic", "acidic", "onlyR", "onlyH", "CY", "none", "single", "mixed", "mixed", "mixed", "homopolymer"]))
+    cls = draw(st.sampled_from(["basic", "acidic", "onlyR", "onlyH", "CY", "none", "single", "mixed", "mixed", "mixed", "homopolymer", "diluted"]))
+    if cls == "diluted":
+        # one or two titratable residues in a long chain of residues that do not titrate
+        n = draw(st.integers(20, max_len))
+        lst = list(draw(gens.exact_words(draw(st.sampled_from(["G", "GS", "Q", "GSAPNQT"])), n)))
+        for _ in range(draw(st.integers(1, 2))):
+            lst[draw(st.integers(0, n - 1))] = draw(st.sampled_from("CHYKRDE"))
+        return cls, "".join(lst)
     if cls == "basic":
         s = draw(gens.words("KRH", 1, 40))
     elif cls == "acidic":
